@@ -334,18 +334,32 @@ def check(prop, tier, seed):
             cov["samples"].append({"kind": "model", "model": mname, "cfg": cfgfile, "note": M["sample"]})
     # 1b. TLAPS proofs of unbounded lemmas (a bonus that never gates the verdict: failure to discharge is reported, not a violation)
     for pf in P.get("proofs", []):
-        t1 = time.time()
-        rc, o, e = sh(["timeout", "600", "tlapm", "--threads", "4", pf], cwd=SPEC, timeout=630)
-        m = re.search(r"All (\d+) obligations? proved", o + e)
-        m2 = re.search(r"(\d+)/(\d+) obligations? failed", o + e)
-        pr = {"file": "spec/" + pf, "wall_s": round(time.time() - t1, 1)}
-        if m:
-            pr.update({"obligations": int(m.group(1)), "discharged": int(m.group(1))})
-        elif m2:
-            pr.update({"obligations": int(m2.group(2)), "discharged": int(m2.group(2)) - int(m2.group(1))})
-            log(f"note: TLAPS left {m2.group(1)} obligation(s) of {pf} unproved")
+        # proved from scratch (no fingerprints of earlier runs), once per version of the specification
+        pkey = hashlib.sha256(f"{spec_hash()}|{pf}".encode()).hexdigest()[:16]
+        pcache = os.path.join(OUT, "cache", "models", f"tlaps-{os.path.basename(pf)}-{pkey}.json")
+        os.makedirs(os.path.dirname(pcache), exist_ok=True)
+        if os.path.exists(pcache):
+            pr = json.load(open(pcache))
         else:
-            pr.update({"obligations": 0, "discharged": 0, "error": (o + e)[-300:]})
+            t1 = time.time()
+            cdir = os.path.join(OUT, "tlaps", pkey)
+            shutil.rmtree(cdir, ignore_errors=True)
+            os.makedirs(cdir, exist_ok=True)
+            rc, o, e = sh(["timeout", "600", "tlapm", "--cleanfp", "--cache-dir", cdir, "--threads", "4", pf], cwd=SPEC, timeout=630)
+            shutil.rmtree(cdir, ignore_errors=True)
+            m = re.search(r"All (\d+) obligations? proved", o + e)
+            m2 = re.search(r"(\d+)/(\d+) obligations? failed", o + e)
+            pr = {"file": "spec/" + pf, "wall_s": round(time.time() - t1, 1)}
+            if m:
+                pr.update({"obligations": int(m.group(1)), "discharged": int(m.group(1))})
+            elif m2:
+                pr.update({"obligations": int(m2.group(2)), "discharged": int(m2.group(2)) - int(m2.group(1))})
+            else:
+                pr.update({"obligations": 0, "discharged": 0, "error": (o + e)[-300:]})
+            if rc != 124:
+                json.dump(pr, open(pcache, "w"))
+        if pr.get("obligations", 0) != pr.get("discharged", 0) or not pr.get("obligations"):
+            log(f"note: TLAPS did not discharge every obligation of {pf}: {pr}")
         cov.setdefault("tlaps", []).append(pr)
     # 2. conformance: traces of the real contracts judged by the trace specification
     seen_distinct = set()
